@@ -218,14 +218,21 @@ Definition tb_clean (tb : list (string * string)) : bool := forallb (fun kv => c
 Definition dyn_names_ok (e : elements) : bool :=
   forallb clean (el_states e) && forallb clean (el_events e) && clean (el_first e)
   && forallb (fun se => clean (fst se) && forallb (fun et => clean (fst et) && forallb tb_clean (snd et)) (snd se)) (el_tps e)
-  && forallb (forallb clean) (el_rows e)
-  && forallb (fun x => clean (fst (snd x)) && clean (snd (snd x))) (el_evsigs e).
+  && forallb (forallb clean) (el_rows e).
+
+(* the oracle's signature strings, as far as the template uses them: a line with <<<SIGNATURE>>> needs the signatures without defaults, a line with
+   <<<SIGNATUREWITHDEFAULTS>>> those with defaults (a C++ default "={}" does not matter to a file that only asks for the plain signature) *)
+Definition sig_part (d : bool) (x : string * (string * string)) : string := if d then snd (snd x) else fst (snd x).
+Definition body_sigs_clean (sigs : list (string * (string * string))) (body : list uline) : bool :=
+  forallb (fun l => match sig_kind l with Some d => forallb (fun x => clean (sig_part d x)) sigs | None => true end) body.
+Definition sigs_clean07 (t : template16) (sigs : list (string * (string * string))) : bool :=
+  forallb (fun it => match it with EvBlock _ _ body => body_sigs_clean sigs body | _ => true end) t.
 
 (* the names hypothesis of the whole files TEMPLATEStateMachine.py / TEMPLATEStateMachine.h (their USER tags are all fixed text): every name is a
-   non-empty alphanumeric word; the initial state, every name and value of the per-state transition lists, every cell of the table rows and both
-   signature strings the oracle gives for an event are free of '{', backslash and CR -- syntactic *)
+   non-empty alphanumeric word; the initial state, every name and value of the per-state transition lists, every cell of the table rows and the
+   signature strings of the oracle that the template asks for are free of '{', backslash and CR -- syntactic *)
 Definition names_plain (e : elements) : bool := forallb name_ok (all_names e).
-Definition names_ok_x (e : elements) : bool := names_plain e && dyn_names_ok e.
+Definition names_ok_x (t : template16) (e : elements) : bool := names_plain e && dyn_names_ok e && sigs_clean07 t (el_evsigs e).
 
 (* a line that is the empty string (no newline: what the first filtering leaves of a line it empties) adds nothing to the written text; the
    file's lines without such entries *)
